@@ -17,6 +17,8 @@ import tempfile
 import time
 
 HERE = os.path.dirname(os.path.dirname(os.path.abspath(__file__)))
+# self-validation runs against scratch mutants write their evidence / replays elsewhere
+OUT = os.environ.get("VF_OUT") or HERE
 PY = sys.executable
 
 
@@ -158,7 +160,7 @@ def aggregate(prop, tier, seed, mod, plan, results, inconclusive, t0):
         new.append(v)
 
     # evidence
-    os.makedirs(os.path.join(HERE, "evidence"), exist_ok=True)
+    os.makedirs(os.path.join(OUT, "evidence"), exist_ok=True)
     cov = {
         "evaluations": int(evaluations),
         "distinct_nontrivial": len(distinct),
@@ -183,7 +185,7 @@ def aggregate(prop, tier, seed, mod, plan, results, inconclusive, t0):
         "coverage": cov, "assumptions": list(mod.ASSUMPTIONS),
         "wall_s": round(time.time() - t0, 2), "violations": len(new),
     }
-    with open(os.path.join(HERE, "evidence", f"{prop}.json"), "w") as f:
+    with open(os.path.join(OUT, "evidence", f"{prop}.json"), "w") as f:
         json.dump(ev, f, indent=1, sort_keys=True)
         f.write("\n")
 
@@ -201,7 +203,7 @@ def aggregate(prop, tier, seed, mod, plan, results, inconclusive, t0):
             print(f"KNOWN-FINDING: property={prop} {f_['id']} {f_['what']} "
                   f"(observed {known.get(f_['id'], 0)} times this run){extra}")
     if new:
-        rdir = os.path.join(HERE, "replays", prop)
+        rdir = os.path.join(OUT, "replays", prop)
         os.makedirs(rdir, exist_ok=True)
         for v in new[:10]:
             name = hashlib.sha1(v["signature"].encode()).hexdigest()[:12] + ".json"
@@ -210,7 +212,7 @@ def aggregate(prop, tier, seed, mod, plan, results, inconclusive, t0):
                 json.dump({**v, "seed": seed, "tier": tier}, f, indent=1)
             print(f"  monitor={v['monitor']} finding={v['finding']} observed={json.dumps(v['observed'])[:200]} "
                   f"acceptable={json.dumps(v['acceptable'])[:200]}")
-            print(f"VIOLATION property={prop} replay={os.path.relpath(path, HERE)}")
+            print(f"VIOLATION property={prop} replay={os.path.relpath(path, OUT) if OUT == HERE else path}")
         return 1
     if inconclusive:
         for r in inconclusive:
@@ -233,4 +235,13 @@ def main(argv):
 
 
 if __name__ == "__main__":
-    sys.exit(main(sys.argv[1:]))
+    try:
+        code = main(sys.argv[1:])
+    except SystemExit:
+        raise
+    except BaseException:  # noqa: BLE001  (the harness or the library failed to load)
+        import traceback
+        tb = traceback.format_exc()
+        print("INCONCLUSIVE driver failed before a verdict: " + tb[-1500:].replace("\n", " | "))
+        code = 2
+    sys.exit(code)
